@@ -273,6 +273,7 @@ class ebpps_sketch {
     static uint32_t check_k(uint32_t k);
     static void check_preamble_longs(uint8_t preamble_longs, uint8_t flags);
     static void check_family_and_serialization_version(uint8_t family_id, uint8_t ser_ver);
+    static void check_state(uint32_t k, double cumulative_wt, double wt_max, double rho, double c);
     static uint32_t validate_and_get_target_size(uint32_t preamble_longs, uint32_t k, uint64_t n);
 };
 
